@@ -138,7 +138,7 @@ def build_menu():
 
 
 MENU = build_menu()
-STATES = ('active', 'one_stopped', 'in_flight')
+STATES = ('active', 'one_stopped', 'in_flight', 'after_refusals')
 
 
 def snapshot(w):
@@ -156,7 +156,7 @@ def snapshot(w):
 
 def c11_refuse(si: int, ri: int) -> bool:
     """
-    pre: 0 <= si < len(STATES) and 0 <= ri < len(MENU)
+    pre: 0 <= si < rt.S.get('nstates', 3) and 0 <= ri < len(MENU)
     pre: ri % rt.S.get('mod', 1) == rt.S.get('rem', 0)
     post: _
     """
@@ -176,6 +176,13 @@ def c11_refuse(si: int, ri: int) -> bool:
             w.quiesce()
             if STATES[si] == 'one_stopped':
                 w.call('stop', name='b', waiting=True, match='simple')
+            elif STATES[si] == 'after_refusals':
+                # two other corrupted requests were refused just before: a refusal must not colour the handling of the next request
+                import copy as _copy
+                for off in (7, 31):
+                    c_, p_ = MENU[(ri + off) % len(MENU)]
+                    w.send(c_, **_copy.deepcopy(p_))
+                w.run_for(1.5)
             elif STATES[si] == 'in_flight':
                 w.send('restart', name='a', match='simple')       # holds the exclusive slot for its grace period and warm-up delays
             cmd, props = MENU[ri]
@@ -266,6 +273,6 @@ def plan(tier):
     q = tier == 'quick'
     mod = 16
     return [
-        Cond('c11_refuse', shards=[{'mod': mod, 'rem': r} for r in range(mod)], budget=240 if q else 900, twins=2,
-             bounds={'state': 'S%r' % (STATES,), 'request': 'S: %d corrupted requests (see build_menu)' % len(MENU)}),
+        Cond('c11_refuse', shards=[dict({'mod': mod, 'rem': r}, **({} if q else {'nstates': 4})) for r in range(mod)], budget=240 if q else 900, twins=2,
+             bounds={'state': 'S%r (the last one in the thorough tier only)' % (STATES,), 'request': 'S: %d corrupted requests (see build_menu)' % len(MENU)}),
     ]
